@@ -198,7 +198,8 @@ def rule_b(ctx):
     eff = effects_in(ffl, governed)
     calls = sorted({e[1] for e in eff if e[0] == "call"})
     stores = sorted({e[1] for e in eff if e[0] == "store"})
-    ctx.check("pad_to" in calls and set(calls) <= {"pad_to", "as_ref", "default"} and not stores, "C15-B",
+    ctx.check("pad_to" in calls and set(calls) <= {"pad_to", "as_ref", "default", "unwrap_or", "unwrap_or_default", "clone", "cloned",
+                                                "as_deref"} and not stores, "C15-B",
               "padding-governs-only-pad_to", ffl.span, ffl.id, "governed by pad_blocks: calls %s, stores %s" % (calls, stores))
     pushes = ffl.calls(lambda cd, t: ends(cd, "Vec::<T, A>::push"))
     ctx.check(len(pushes) == 1 and not unreachable_without_edges(ffl, pushes[0][0], cut), "C15-B", "line-pushed-regardless-of-padding",
